@@ -14,7 +14,7 @@ RULE = ("Hypothesis-generated nested 3D plotfiles (1-3 levels, partial refinemen
         "level-independent), T (level-tagged coded payload), R (random) x normal x constructed position class (cell "
         "centre / face / safe fraction between centres of a drawn level, interior box face, half-cell gap next to a "
         "box face, first / last half cell, domain faces, default, outside) x field list (1-4 fields, grid_level, all) "
-        "x level limit; 4 runs each (2 numpy.empty poisons x serial / scheduled pool), in 3 of 4 cases followed by a history (one object slicing at another position, then twice at p: bit-identical to the fresh result). Oracles: A == alpha+beta*p "
+        "x level limit; 4 runs each (2 numpy.empty poisons x serial / scheduled pool), in 3 of 4 cases followed by a history (one object slicing at another position, then twice at p: bit-identical to the fresh result; arrays returned by the earlier calls - one left alone, one edited in place by the caller - are not written into by the later calls). Oracles: A == alpha+beta*p "
         "away from the domain faces; K == covering pattern; T == linear interpolation of the two bracketing stored "
         "samples at pixels where the statement leaves no freedom; grid_level in the levels having a box within half "
         "a cell; coordinates; default = domain centre; outside refused; runs bit-identical and poison-free. "
@@ -110,14 +110,30 @@ def check_case(case, ctx):
                 m = qcall(Mandoline, "src", fields=list(req), limit_level=limit, serial=hserial, verbose=0)
                 # (first along another normal: an explicit normal, 0 included, must not fall back to the previous one)
                 qcall(m.slice, normal=(cn + 1 + case["pos"]["index"] % 2) % 3, pos=None, fformat="return")
-                qcall(m.slice, normal=cn, pos=p2, fformat="return")
+                kept = qcall(m.slice, normal=cn, pos=p2, fformat="return")
+                kept_copy = {k: np.array(a, copy=True) for k, a in kept.items() if isinstance(a, np.ndarray)}
                 first = qcall(m.slice, normal=cn, pos=p, fformat="return")
                 # the caller owns what it was given: editing the returned arrays in place must not change later results
                 for key, arr in first.items():
                     if isinstance(arr, np.ndarray) and arr.dtype.kind == "f" and arr.flags.writeable:
                         arr *= 100.0
                         arr -= 7.0
+                edited = {k: np.array(a, copy=True) for k, a in first.items() if isinstance(a, np.ndarray)}
                 again = qcall(m.slice, normal=cn, pos=p, fformat="return")
+            # ... and the arrays the caller was given (and edited) are the caller's: later calls must not write into them
+            for key, was in edited.items():
+                now = np.asarray(first[key])
+                if now.shape != was.shape or not refread.same_bits(now.astype("<f8"), was.astype("<f8")):
+                    v.append(f"{key}: the arrays returned by an earlier slice (edited by the caller since) were overwritten when the same "
+                             f"Mandoline object ran again: a returned result does not belong to the caller")
+                    break
+            # what an earlier call returned stays what it was: later slices of the same object must not write into it
+            for key, was in kept_copy.items():
+                now = np.asarray(kept[key])
+                if now.shape != was.shape or not refread.same_bits(now.astype("<f8"), was.astype("<f8")):
+                    v.append(f"{key}: the arrays returned by the slice at p2={p2!r} changed while the same Mandoline object sliced "
+                             f"again at p={p!r} (normal {cn}, serial={hserial}): a returned result is overwritten by later calls")
+                    break
             for name in out_names + (["grid_level"] if do_grid else []) + ["x", "y"]:
                 a, b = np.asarray(out.get(name)), np.asarray(again.get(name))
                 if a.shape != b.shape or not refread.same_bits(a.astype("<f8"), b.astype("<f8")):
